@@ -1,5 +1,5 @@
 """C03 - a failed send leaves no trace; a successful send is delivered exactly once."""
-from gen import common, framing
+from gen import common, framing, ux
 from gen.common import hexs
 from gen.props.C01 import replay
 
@@ -8,6 +8,7 @@ THEOREMS = [
     "XcmModel.C03.C03_size_checks_first", "XcmModel.C03.C03_eagain_is_finish",
     "XcmModel.C03.C03_bad_refuses", "XcmModel.C03.C03_only_accepted_delivered_once",
     "XcmModel.C03.accepted_only_ok", "XcmModel.C01.C01_exact_delivery",
+    "XcmModel.C03.C03_ux_failed_send_no_trace", "XcmModel.C03.C03_ux_size_checks_first",
 ]
 
 
@@ -69,3 +70,5 @@ def run(ctx):
             m, il = ctx.differential("unit_framing_" + variant, "framing", exe, allops, label="sends")
             mon.run(allops, il)
     ctx.assumptions += ["lower-layer failure is terminal (C06 of btcp/btls); blocking-mode xcm_send (poll/EINTR) is outside this check"]
+    ux.run_part(ctx, 40 if quick else 2000, "c03")
+    ctx.rule += "; unit_ux: ux_send refused by the size checks or by the kernel (EAGAIN, EINTR, EPIPE...) vs model: nothing handed to the kernel, counters unchanged"
